@@ -8,19 +8,34 @@ manages polling based on target capacity and re-polls after work completion.
 from __future__ import annotations
 
 import logging
-from dataclasses import dataclass
+from dataclasses import dataclass, field
 from typing import TYPE_CHECKING
 
 from happysimulator.components.queue import QueueDeliverEvent, QueueNotifyEvent, QueuePollEvent
 from happysimulator.core.entity import Entity
+from happysimulator.core.event import Event
 
 if TYPE_CHECKING:
     from collections.abc import Generator
 
-    from happysimulator.core.event import Event
     from happysimulator.core.temporal import Instant
 
 logger = logging.getLogger(__name__)
+
+
+class _DeliverySettledEvent(Event):
+    """Driver-internal follow-up scheduled right behind a forwarded work item.
+
+    The work item keeps its original creation index, so at the same instant it
+    reaches the target *before* this event does.  Only then does
+    ``target.has_capacity()`` account for the item, and only then may the
+    driver decide whether to poll again.
+    """
+
+    __slots__ = ()
+
+    def __init__(self, *, time: Instant, target, **kwargs):
+        super().__init__(time=time, event_type="QUEUE_SETTLED", target=target, **kwargs)
 
 
 @dataclass
@@ -36,7 +51,14 @@ class QueueDriver(Entity):
     2. Driver checks target.has_capacity() and polls if ready
     3. Queue sends QueueDeliverEvent with payload
     4. Driver retargets payload to target and schedules it
-    5. On completion, driver re-polls if target has capacity
+    5. Once the target has received the item, and again on completion,
+       the driver re-polls if target has capacity
+
+    At most one poll is outstanding at any time: ``has_capacity()`` cannot see
+    an item that was polled but has not reached the target yet, so a second
+    poll issued in that window (for example a completion hook and a notify
+    landing on the same instant) would dequeue more work than the target can
+    take.
 
     Attributes:
         name: Identifier for logging.
@@ -47,6 +69,10 @@ class QueueDriver(Entity):
     name: str = "QueueDriver"
     queue: Entity = None
     target: Entity = None
+
+    # True from issuing a poll until the queue answered it and, if it delivered
+    # an item, the target has received that item.
+    _poll_outstanding: bool = field(default=False, init=False, repr=False)
 
     def downstream_entities(self) -> list[Entity]:
         result: list[Entity] = []
@@ -61,12 +87,30 @@ class QueueDriver(Entity):
         if isinstance(event, QueueDeliverEvent):
             return self._handle_delivery(event)
 
+        if isinstance(event, _DeliverySettledEvent):
+            self._poll_outstanding = False
+            return self._poll_if_ready(self.now)
+
         return []
+
+    def _poll_if_ready(self, time: Instant) -> list[Event]:
+        """Poll the queue unless a poll is already outstanding or the target is busy."""
+        if self._poll_outstanding:
+            logger.debug("[%s] Poll already outstanding, not polling again", self.name)
+            return []
+        if not self.target.has_capacity():
+            logger.debug("[%s] Target at capacity, deferring poll", self.name)
+            return []
+        logger.debug("[%s] Target has capacity, scheduling poll", self.name)
+        self._poll_outstanding = True
+        return [QueuePollEvent(time=time, target=self.queue, requestor=self)]
 
     def _handle_delivery(self, event: QueueDeliverEvent) -> list[Event]:
         """Queue delivered one payload event; clone/retarget and re-emit."""
         if event.payload is None:
+            # Queue had nothing for us; its next enqueue sends a notify.
             logger.debug("[%s] Received empty delivery", self.name)
+            self._poll_outstanding = False
             return []
         logger.debug(
             "[%s] Received delivery: type=%s, forwarding to target",
@@ -76,24 +120,12 @@ class QueueDriver(Entity):
         return self._handle_work_payload(event.payload)
 
     def _handle_work_payload(self, payload: Event) -> list[Event]:
-        def schedule_poll(time: Instant):
-            if self.target.has_capacity():
-                logger.debug("[%s] Target has capacity, scheduling poll", self.name)
-                return QueuePollEvent(time=time, target=self.queue, requestor=self)
-            logger.debug("[%s] Target at capacity, deferring poll", self.name)
-            return None
-
         target_event = payload
         target_event.time = self.now
         target_event.target = self.target
-        target_event.add_completion_hook(schedule_poll)
-        return [target_event]
+        target_event.add_completion_hook(self._poll_if_ready)
+        return [target_event, _DeliverySettledEvent(time=self.now, target=self)]
 
     def _handle_notify(self, _: QueueNotifyEvent) -> list[Event]:
         """Queue has work available—poll if target has capacity."""
-        if not self.target.has_capacity():
-            logger.debug("[%s] Notify received but target at capacity", self.name)
-            return []
-
-        logger.debug("[%s] Notify received, polling queue", self.name)
-        return [QueuePollEvent(time=self.now, target=self.queue, requestor=self)]
+        return self._poll_if_ready(self.now)
